@@ -386,8 +386,12 @@ func genBip39() {
 	for _, n := range bipFns {
 		pinnedFns[p.method(n)] = true
 	}
-	g.src(p, "MnemonicToSeed", "EntropyToMnemonic", "MnemonicToEntropy", "computeChecksum",
-		"validateMnemonic",
+	// EntropyToMnemonic, MnemonicToEntropy, computeChecksum, validateMnemonic are translated as code by genBip39Code (stage 12,
+	// loops_big2.go) and tied in Iota/Tie/Bip39BigCode.lean: not pinned by text any more
+	for _, n := range bip39CodeFns {
+		pinnedFns[p.method(n)] = true
+	}
+	g.src(p, "MnemonicToSeed",
 		"ParseMnemonic", "Mnemonic.String", "Mnemonic.MarshalText", "Mnemonic.UnmarshalText",
 		"SetWordList", "RegisterWordList", "init")
 	g.src(il, "newWordList", "wordList.Contains", "wordList.Word", "wordList.Index", "English", "Japanese")
@@ -639,6 +643,26 @@ func genSecp256k1Code() {
 	bt := repoPkg("pkg/slip10/elliptic/internal/btccurve")
 	g := newGenHdr("Secp256k1Code", loopHeaderText+flowHeaderText+recvHeaderText+callHeaderText+bigHeaderText, "Iota.Model.GoBits")
 	g.raw(translateLoopFuncsNS(bt, "btccurve", secpCodeFns...))
+	g.write()
+}
+
+// the functions of pkg/bip39 that genBip39Code translates as code (stage 12, loops_big2.go), callees first
+var bip39CodeFns = []string{"computeChecksum", "validateMnemonic", "EntropyToMnemonic", "MnemonicToEntropy"}
+
+// genBip39Code: EntropyToMnemonic / MnemonicToEntropy of pkg/bip39 with computeChecksum and validateMnemonic, translated as
+// code into a file of its own.  The four helpers they call (entropyBitsToWordCount, wordCountToEntropyBits, padBytes,
+// validateEntropy) are the translations in Gen/Bip39.lean (namespace code there): the same call as in genBip39 registers
+// their signatures, the text it returns is not written again, the file imports Gen/Bip39.lean and opens these names.
+// Parameters of the generated functions: sha256_Sum256, wordList_Contains, wordList_Word, wordList_Index (big2HeaderText).
+func genBip39Code() {
+	p := repoPkg("pkg/bip39")
+	g := newGenHdr("Bip39Code", loopHeaderText+flowHeaderText+recvHeaderText+callHeaderText+strsHeaderText+arrHeaderText+bigHeaderText+big2HeaderText,
+		"Iota.Model.GoBits", "Iota.Gen.Bip39")
+	helpers := []string{"entropyBitsToWordCount", "wordCountToEntropyBits", "padBytes", "validateEntropy"}
+	translateLoopFuncsNS(p, "code", helpers...)
+	g.raw("-- the helpers of pkg/bip39 translated in Iota/Gen/Bip39.lean\n")
+	g.raw("open Iota.Gen.Bip39 (code.entropyBitsToWordCount code.wordCountToEntropyBits code.padBytes code.validateEntropy)\n\n")
+	g.raw(translateLoopFuncsNS(p, "big", bip39CodeFns...))
 	g.write()
 }
 
